@@ -386,7 +386,12 @@ def run(ctx):
         for f in c.faults:
             ctx.count("kind:" + f.split("@")[0])
         ctx.nontriv((id(c.sd), tuple(c.lines), tuple(c.overrides), bool(c.files)))
-        if c.model is not None and c.model[0] not in ("bad",):
+        if c.model is not None and list(c.model[:2]) == ["internal", "unresolved-by-harness"]:
+            # the model asked for an %include target the harness' resolve table does not list (a mutated line turned into an
+            # %include with an argument the harness did not foresee): no model answer for this text, the direct oracle below
+            # still judges the real outcome (false alarm under VERIF_SEED=13)
+            ctx.count("model:no-answer:unresolved-include")
+        elif c.model is not None and c.model[0] not in ("bad",):
             if (c.model[0] == "internal") != (c.out[0] == "internal") or (c.out[0] == "internal" and c.model[1] != c.out[1]):
                 ctx.disagree("load", c.replay(), c.out, c.model[:6])
         if c.out[0] == "internal":
